@@ -66,6 +66,10 @@ CLAIMS = {
             "Generated offender streams (boundary arguments for every numeric position, grammar instances of every command, empty/null/nested/non-array frames, nesting around the depth limit, mutated frames, disconnects) are interleaved request by request with a witness connection on the same server, against the example store and against a scripted handler with nil/wrong-shaped results; a fixed list of ~50 dangerous requests (allocation bombs, extreme counts, 8M-deep nesting, a concurrent same-hash burst) runs against the example server as a separate process under RLIMIT_AS whose wait status is the verdict.",
             "A panic recovered in-process stands for a process abort (there is no recover in the server's loops). The concurrent burst depends on the scheduler. Whether a value comes back as status or bulk is not judged here (C04/C18).",
             "DESIGN.md 4/C07"),
+    "C16": ("history-based property testing: generated concurrent workloads (harness-forced interleavings at handler-primitive granularity + uncontrolled goroutines), oracle = complete linearizability search (porcupine v1.3.0) against the sequential Redis model",
+            "Controlled mode parks one client at each primitive handler call of its command (before Get, between Get and Set, ...) while another client's command is started, exhaustively for all ordered pairs of the nine operation kinds, plus random multi-round sequences; uncontrolled mode runs 2..8 clients on real goroutines against the reference store and the example store. Every recorded history (logical-clock invoke/return stamps) is checked for linearizability.",
+            "The recorded history is the reproducible unit (replay re-checks it); whether a forced interleaving materialises depends on a 3 ms scheduling aid that is never used as a verdict. Uncontrolled mode depends on the scheduler.",
+            "DESIGN.md 4/C16"),
 }
 
 PENDING = {
